@@ -50,6 +50,8 @@ pub fn make_lang(lang: &str, cfg: &Value, multi_file: bool) -> Option<Box<dyn La
             prefix: s(&cfg["prefix"]),
             type_mappings: smap(&cfg["type_mappings"]),
             no_version_header: !header,
+            // (a field added to a backend struct must not break the harness)
+            ..Default::default()
         }),
         "swift" => Box::new(Swift {
             prefix: s(&cfg["prefix"]),
@@ -68,6 +70,7 @@ pub fn make_lang(lang: &str, cfg: &Value, multi_file: bool) -> Option<Box<dyn La
             module_name: s(&cfg["module_name"]),
             type_mappings: smap(&cfg["type_mappings"]),
             no_version_header: !header,
+            ..Default::default()
         }),
         "go" => Box::new(Go {
             package: s(&cfg["package"]),
@@ -185,6 +188,7 @@ fn pipeline(job: &Value) -> Outcome {
         ignored_types: ignored.iter().map(|s| s.as_str()).collect(),
         multi_file,
         target_os,
+        ..Default::default()
     };
     let mut acc: BTreeMap<CrateName, ParsedData> = BTreeMap::new();
     let mut errors = Vec::new();
